@@ -386,14 +386,12 @@ var loopTable = map[string]string{
 
 func monotone(ph *ssa.Phi) bool {
 	dir := 0
-	nConst := 0
-	for _, e := range ph.Edges {
-		if _, ok := constInt(e); ok {
-			nConst++
-			continue
-		}
-		if c, ok := e.(*ssa.Call); ok && isBuiltin(&c.Call, "len") {
-			nConst++
+	nInit := 0
+	blk := ph.Block()
+	for i, e := range ph.Edges {
+		if !blk.Dominates(blk.Preds[i]) {
+			// entered from outside the loop: the start value, whatever it is
+			nInit++
 			continue
 		}
 		bo, ok := e.(*ssa.BinOp)
@@ -418,7 +416,7 @@ func monotone(ph *ssa.Phi) bool {
 		}
 		dir = d
 	}
-	return nConst > 0 && dir != 0
+	return nInit > 0 && dir != 0
 }
 
 // ---------------------------------------------------------------------------
